@@ -65,10 +65,11 @@ pub fn menu() -> Vec<Op> {
         }));
     }
     for k in SCRIPT_KINDS {
-        for (variant, flags, prog) in [("plain", None, None), ("flags", Some(5u32), None), ("prog", None, Some(vec!["/bin/sh".to_string(), "-c".to_string()])), ("flags+prog", Some(1), Some(vec!["/usr/bin/lua".to_string()]))] {
+        for (variant, flags, prog) in [("plain", None, None), ("flags", Some(5u32), None), ("prog", None, Some(vec!["/bin/sh".to_string(), "-c".to_string()])), ("flags+prog", Some(1), Some(vec!["/usr/bin/lua".to_string()])), ("empty body", None, None), ("empty body + prog", None, Some(vec!["/sbin/ldconfig".to_string()]))] {
             let prog = prog.clone();
             m.push(op(format!("{}_script({})", k, variant), move |s| {
-                if let Some(old) = s.scripts.insert(k, ScriptSpec { script: format!("echo {} {}\nexit 0", k, variant), flags, prog: prog.clone() }) {
+                let body = if variant.starts_with("empty body") { String::new() } else { format!("echo {} {}\nexit 0", k, variant) };
+                if let Some(old) = s.scripts.insert(k, ScriptSpec { script: body, flags, prog: prog.clone() }) {
                     s.overwritten.push(Overwritten::Script(k, old));
                 }
             }));
@@ -170,6 +171,20 @@ pub fn menu() -> Vec<Op> {
         l.content = Content::Bytes(vec![]);
         l.caps = Some("=".into());
         fops.push(("caps on a symbolic link".into(), l));
+    }
+    // %verify flags: which attributes rpm -V compares later does not change what is recorded now
+    for (n, bits) in [("verify none", 0u32), ("verify all but the file digest", 0xffff_fffe), ("verify digest only", 1), ("verify not size mtime digest", !(1u32 | 2 | 32))] {
+        let mut f = base_file();
+        f.dest = format!("/v/{}", n.replace(' ', "-"));
+        f.verify = Some(bits);
+        fops.push((n.to_string(), f));
+    }
+    // capability texts with more than one clause and every kind of white space between and around them
+    for (n, t) in [("two clauses, tab", "cap_net_admin=p\tcap_net_raw+ep"), ("two clauses, two blanks", "cap_chown=e  cap_kill+i"), ("leading and trailing blank", " cap_chown=p "), ("trailing newline", "cap_net_raw=ep\n"), ("newline between clauses", "cap_chown=p\ncap_kill=e\r\n")] {
+        let mut f = base_file();
+        f.dest = format!("/c/{}", n.replace([' ', ','], "-"));
+        f.caps = Some(t.to_string());
+        fops.push((format!("caps {}", n), f));
     }
     for (n, c) in [("empty", Content::Bytes(vec![])), ("1 byte", Content::Bytes(vec![0xff])), ("4097 bytes", Content::Noise(4097))] {
         let mut f = base_file();
